@@ -215,7 +215,9 @@ def chk_triple(repo, rng, tier, tmp, want_keyspace):
         special = [['abcd'] * 5 + ['abce'] + ['hello1'] * 5, ['abcdef'] * 700 + ['xyzdef'], None, None, None, None]
         configs = [(4, 100)] * 6 + configs[1:]
     for ci, (ngram, asize) in enumerate(configs):
-        words = [rng.choice(WORDS) for _ in range(30)] + ['abcd'] * 5 + ['abce'] + ['hello1'] * 5
+        words = [rng.choice(WORDS) for _ in range(30)] + ['abcd'] * 5 + ['abce'] + ['hello1'] * 5 + [('abcd' * 6)[:21]] * 2
+        if want_keyspace and ci >= 2:
+            words = words + ['a', 'hi', 'lo1', 'x' * 25]      # valid passwords the Markov model cannot use (too short / too long): they count in N
         if want_keyspace and ci < len(special) and special[ci] is not None:
             words = special[ci]
         # configurations 3..5 exercise the max_keyspace cut-off (a level is listed only with its complete count)
@@ -253,6 +255,8 @@ def chk_triple(repo, rng, tier, tmp, want_keyspace):
         cands = set(words) | set(list(emitted)[:400]) | {'zz', 'a', 'abcd' * 6, 'abcé', 'passwor', 'x' * ngram, 'y' * (ngram - 1)}
         # strings that start with an n-gram seen only in the middle or at the end of training passwords
         cands |= {w[i:] for w in set(words) for i in range(1, max(1, len(w) - ngram + 1))}
+        # strings of exactly the maximum trained length (21), of one character more, and of the n-gram size
+        cands |= {('abcd' * 6)[:21], ('abcd' * 6)[:22], ('abcd' * 6)[:20], 'hello1hello1hello1hel', 'abcd'[:ngram]}
         for s in sorted(cands):
             t = find_level(tr, s)
             k = sc.parse(s)
@@ -265,13 +269,47 @@ def chk_triple(repo, rng, tier, tmp, want_keyspace):
             yield {'words': words[:12] + ['...'], 'ngram': ngram, 'string': s}, ok, {'trainer': t, 'scorer': k, 'guesser': gl}, t >= 0
 
 
+def loaddet_child(repo, base):
+    """child of LOADDET: prints the loaded OMEN tables in their native order"""
+    sys.path.insert(0, repo)
+    from lib_guesser.omen.input_file_io import load_rules
+    g = {}
+    with contextlib.redirect_stderr(io.StringIO()):
+        ok = load_rules(os.path.join(base, 'Omen'), g)
+    print(json.dumps({'ok': ok, 'ip': {str(k): v for k, v in g.get('ip', {}).items()}, 'ln': {str(k): v for k, v in g.get('ln', {}).items()},
+                      'cp': [[p, [[str(l), ch] for l, ch in d.items()]] for p, d in g.get('cp', {}).items()]}))
+
+
+def chk_loaddet(repo, rng, tier, tmp):
+    """the tables the guesser loads (and the order inside every list, which the pickled cursor of an interrupted level indexes) are the same in
+    processes with different string-hash seeds"""
+    import subprocess
+    for ngram, asize in [(3, 20), (4, 100)]:
+        words = [rng.choice(WORDS) for _ in range(40)]
+        tr, keyspace, counts, base, find_level, ok = train_omen(repo, words, ngram, asize, tmp)
+        outs = []
+        for hs in ('1', '2', '77'):
+            p = subprocess.run([sys.executable, '-W', 'ignore', os.path.abspath(__file__), '--repo', repo, '--fn', 'LOADDETCHILD', '--base', base],
+                               capture_output=True, text=True, env=dict(os.environ, PYTHONHASHSEED=hs), timeout=300)
+            outs.append(p.stdout.strip().split('\n')[-1])
+        same = outs[0] == outs[1] == outs[2] and json.loads(outs[0])['ok']
+        diff = None
+        if not same:
+            a_, b_ = json.loads(outs[0]), json.loads(outs[1] if outs[1] != outs[0] else outs[2])
+            diff = next(({'table': t, 'seed1': str(a_[t])[:200], 'other': str(b_[t])[:200]} for t in ('ip', 'ln', 'cp') if a_[t] != b_[t]), None)
+        yield {'ngram': ngram, 'words': words[:10] + ['...'], 'hash_seeds': [1, 2, 77]}, same, {'difference': diff}, True
+
+
 def main():
     ap = argparse.ArgumentParser()
+    ap.add_argument('--base', default=None)
     ap.add_argument('--repo', default='/repo')
     ap.add_argument('--fn', default='ENUM')
     ap.add_argument('--seed', type=int, default=0)
     ap.add_argument('--tier', default='quick')
     a = ap.parse_args()
+    if a.fn == 'LOADDETCHILD':
+        return loaddet_child(a.repo, a.base)
     MarkovCracker, Optimizer = load(a.repo)
     rng = random.Random(a.seed)
     tmp = tempfile.mkdtemp(prefix='pcfg_omen_')
@@ -280,12 +318,13 @@ def main():
     samples = []
     try:
         fn = a.fn
-        if fn not in ('ENUM', 'CUTS', 'TRIPLE', 'KEYSPACE'):
+        if fn not in ('ENUM', 'CUTS', 'TRIPLE', 'KEYSPACE', 'LOADDET'):
             fn = 'ENUM'
         it = {'ENUM': lambda: chk_enum(MarkovCracker, Optimizer, rng, a.tier),
               'CUTS': lambda: chk_cuts(MarkovCracker, Optimizer, rng, a.tier, tmp),
               'TRIPLE': lambda: chk_triple(a.repo, rng, a.tier, tmp, False),
-              'KEYSPACE': lambda: chk_triple(a.repo, rng, a.tier, tmp, True)}[fn]()
+              'KEYSPACE': lambda: chk_triple(a.repo, rng, a.tier, tmp, True),
+              'LOADDET': lambda: chk_loaddet(a.repo, rng, a.tier, tmp)}[fn]()
         for inp, ok, extra, nt in it:
             cases += 1
             nontrivial += 1 if nt else 0
